@@ -20,6 +20,10 @@ Definition entry_of_probing (v : Z) : entry :=
   {| e_prob := p; e_bo := if marker then 0 else units_of_f32 bbits; e_ext := negb (bbits =? 2147483648);
      e_left := pbits <? 2 ^ 31; e_rest := p |}.
 
+Definition entry_of_probing_longest (v : Z) : entry :=
+  let p := units_of_f32 (sign_on (v mod 2 ^ 31)) in
+  {| e_prob := p; e_bo := 0; e_ext := false; e_left := v <? 2 ^ 31; e_rest := p |}.
+
 Definition pmem_table (buckets : list nat) (n : nat) (V : Z) (t : atable) : Defs.table :=
   fun k =>
     if forallb (fun w => Z.of_N w <? V) k then
@@ -30,9 +34,10 @@ Definition pmem_table (buckets : list nat) (n : nat) (V : Z) (t : atable) : Defs
           let j := length k in
           let b := nth (j - 2) buckets 0%nat in
           if Nat.ltb n j then None else        (* there is no table beyond the model's order *)
-          match table_of b (map (fun ke => (hash_key (fst ke), pvalue (snd ke))) (order_entries t j)) with
+          let longest := Nat.eqb j n in       (* the longest table stores {key; prob} only *)
+          match table_of b (map (fun ke => (hash_key (fst ke), if longest then prob_bits (snd ke) else pvalue (snd ke))) (order_entries t j)) with
           | Ok tb => match ProbingModel.find b (ideal_of DivMod b) (next_of DivMod b) tb (hash_key k) with
-                     | Ok (Some v) => Some (entry_of_probing v)
+                     | Ok (Some v) => Some (if longest then entry_of_probing_longest v else entry_of_probing v)
                      | _ => None
                      end
           | _ => None
@@ -98,6 +103,14 @@ Proof.
     cbn [orb negb]. split; [apply f32_units_roundtrip; exact Hb|]. split; [symmetry; apply Hx; exact En|reflexivity].
 Qed.
 
+Lemma decode_longest : forall e, - 2 ^ 24 < e_prob e <= 0 ->
+  let e' := entry_of_probing_longest (prob_bits e) in
+  e_prob e' = e_prob e /\ e_bo e' = 0 /\ e_ext e' = false /\ e_left e' = e_left e.
+Proof.
+  intros e Hp. cbv zeta. unfold entry_of_probing_longest. cbn [e_prob e_bo e_ext e_left].
+  destruct (prob_bits_low e Hp) as [L1 L2]. rewrite L1, L2. split; [apply (decode_norm (e_prob e)); exact Hp|]. repeat split; reflexivity.
+Qed.
+
 (* ---- the table read back ------------------------------------------------------------------------------------------------------------- *)
 Lemma alookup_order_entries : forall (t : atable) j k, length k = j -> Defs.alookup (order_entries t j) k = Defs.alookup t k.
 Proof.
@@ -127,6 +140,7 @@ Section ProbingEndToEnd.
   Hypothesis Hdense : forall w, T [w] <> None <-> Z.of_N w < V.
   Hypothesis Hrange : forall k e, T k = Some e -> - 2 ^ 24 < e_prob e <= 0 /\ - 2 ^ 24 < e_bo e < 2 ^ 24.
   (* room in every table (the loader throws ProbingSizeException otherwise) *)
+  Hypothesis Hlongest : forall k e, T k = Some e -> length k = n -> e_bo e = 0.
   Hypothesis Hroom : forall j, (2 <= j <= n)%nat -> (length (order_entries t j) < nth (j - 2) buckets 0)%nat.
   (* the assumption the code makes about its 64-bit hash: it separates the n-grams over the vocabulary, and none hashes to the empty key *)
   Definition over_vocab (k : key) : Prop := Forall (fun w => Z.of_N w < V) k /\ (2 <= length k <= n)%nat.
@@ -151,7 +165,8 @@ Section ProbingEndToEnd.
   Lemma pmem_spec : forall k,
     match T k with
     | None => T' k = None
-    | Some e => exists e', T' k = Some e' /\ e_prob e' = e_prob e /\ e_bo e' = e_bo e /\ e_ext e' = e_ext e /\ e_left e' = e_left e
+    | Some e => exists e', T' k = Some e' /\ e_prob e' = e_prob e /\ e_bo e' = e_bo e /\ e_left e' = e_left e /\
+                           ((length k < n)%nat -> e_ext e' = e_ext e) /\ (length k = n -> e_ext e' = false)
     end.
   Proof.
     intros k. unfold T', pmem_table.
@@ -160,7 +175,8 @@ Section ProbingEndToEnd.
       + destruct (T []) eqn:E; [|reflexivity]. pose proof (i_len _ _ _ Inv [] ltac:(rewrite E; discriminate)) as H. cbn in H. lia.
       + fold T. destruct (T [w]) as [e|] eqn:E; [|reflexivity].
         destruct (Hrange [w] e E) as [R1 R2]. eexists. split; [reflexivity|].
-        apply (decode_pvalue e R1 R2 (ext_consistent [w] e E)).
+        destruct (decode_pvalue e R1 R2 (ext_consistent [w] e E)) as [D1 [D2 [D3 D4]]].
+        split; [exact D1|]. split; [exact D2|]. split; [exact D4|]. split; [intros _; exact D3|]. cbn [length]. intros; lia.
       + set (k := w :: w2 :: ks). set (j := length k). set (b := nth (j - 2) buckets 0%nat).
         assert (Hlen2 : (2 <= j)%nat) by (unfold j, k; cbn [length]; lia).
         assert (Hvoc : Forall (fun x => Z.of_N x < V) k).
@@ -169,7 +185,7 @@ Section ProbingEndToEnd.
         * destruct (T k) eqn:E; [|reflexivity]. pose proof (i_len _ _ _ Inv k ltac:(rewrite E; discriminate)). fold j in H. lia.
         * assert (Hov : over_vocab k) by (split; [exact Hvoc|fold j; lia]).
           assert (Hj : (2 <= j <= n)%nat) by lia.
-          destruct (probing_order_table_is_table pvalue t j b ltac:(pose proof (Hroom j Hj); unfold b; lia) (Hroom j Hj)) as [tb [Etb Hfind]].
+          destruct (probing_order_table_is_table (fun e => if Nat.eqb j n then prob_bits e else pvalue e) t j b ltac:(pose proof (Hroom j Hj); unfold b; lia) (Hroom j Hj)) as [tb [Etb Hfind]].
           -- intros ke Hke. destruct (order_entries_in t j ke Hke) as [H1 H2]. apply Hhash_nz. apply key_over_vocab; [apply in_table; exact H1|lia].
           -- (* distinct keys have distinct hashes *)
              assert (G : forall l : atable, NoDup (map fst l) -> (forall ke, In ke l -> over_vocab (fst ke)) -> NoDup (map (fun ke => hash_key (fst ke)) l)).
@@ -185,7 +201,12 @@ Section ProbingEndToEnd.
              ++ intros ke Hke. destruct (order_entries_in t j ke Hke) as [H1 H2]. apply key_over_vocab; [apply in_table; exact H1|lia].
           -- rewrite Etb. rewrite (Hfind k (Hhash_nz k Hov)).
              ++ rewrite alookup_order_entries by reflexivity. fold T. destruct (T k) as [e|] eqn:E; cbn [option_map]; [|reflexivity].
-                destruct (Hrange k e E) as [R1 R2]. eexists. split; [reflexivity|]. apply (decode_pvalue e R1 R2 (ext_consistent k e E)).
+                destruct (Hrange k e E) as [R1 R2]. eexists. split; [reflexivity|]. fold j.
+                destruct (Nat.eqb_spec j n) as [Ejn|Njn].
+                ** destruct (decode_longest e R1) as [D1 [D2 [D3 D4]]].
+                   split; [exact D1|]. split; [rewrite D2; symmetry; apply (Hlongest k e E); exact Ejn|]. split; [exact D4|]. split; [intros; lia|intros _; exact D3].
+                ** destruct (decode_pvalue e R1 R2 (ext_consistent k e E)) as [D1 [D2 [D3 D4]]].
+                   split; [exact D1|]. split; [exact D2|]. split; [exact D4|]. split; [intros _; exact D3|intros; lia].
              ++ intros ke Hke Eh. destruct (order_entries_in t j ke Hke) as [H1 H2].
                 apply (Hhash_inj (fst ke) k); [apply key_over_vocab; [apply in_table; exact H1|lia]|exact Hov|exact Eh].
     - destruct (T k) as [e|] eqn:E; [|reflexivity].
@@ -202,7 +223,8 @@ Section ProbingEndToEnd.
   Qed.
 
   Lemma pmem_some : forall k e', T' k = Some e' ->
-    exists e, T k = Some e /\ e_prob e' = e_prob e /\ e_bo e' = e_bo e /\ e_ext e' = e_ext e /\ e_left e' = e_left e.
+    exists e, T k = Some e /\ e_prob e' = e_prob e /\ e_bo e' = e_bo e /\ e_left e' = e_left e /\
+              ((length k < n)%nat -> e_ext e' = e_ext e) /\ (length k = n -> e_ext e' = false).
   Proof.
     intros k e' H. pose proof (pmem_spec k) as S. destruct (T k) as [e|].
     - destruct S as [e2 [S1 S2]]. rewrite S1 in H. inversion H. subst e2. exists e. split; [reflexivity|exact S2].
@@ -213,16 +235,22 @@ Section ProbingEndToEnd.
   Proof.
     constructor.
     - intros k x Hk H. apply pmem_none_iff. apply pmem_none_iff in H. apply (i_suffix _ _ _ Inv k x Hk H).
-    - intros k e' H Hl. destruct (pmem_some k e' H) as [e [ET [_ [_ [_ El]]]]]. rewrite El.
+    - intros k e' H Hl. destruct (pmem_some k e' H) as [e [ET [_ [_ [El _]]]]]. rewrite El.
       rewrite (i_left _ _ _ Inv k e ET Hl). split; intros [x Hx]; exists x; apply pmem_none_iff; exact Hx.
     - intros w c e' H. destruct (pmem_some (w :: c) e' H) as [e [ET [Ep _]]]. rewrite Ep. apply (i_prob _ _ _ Inv w c e ET).
     - intros k e' H. destruct (pmem_some k e' H) as [e [ET [_ [Eb _]]]]. rewrite Eb. apply (i_bo _ _ _ Inv k e ET).
     - intros k H. apply (i_sub _ _ _ Inv k). destruct (T k) eqn:E; [|reflexivity]. exfalso.
       assert (T' k <> None) by (apply pmem_none_iff; rewrite E; discriminate). contradiction.
-    - intros k e' H Hx. destruct (pmem_some k e' H) as [e [ET [_ [Eb [Ee _]]]]]. rewrite Ee in Hx.
-      destruct (i_ext _ _ _ Inv k e ET Hx) as [Z0 Hnone]. split; [rewrite Eb; exact Z0|].
-      intros x. destruct (T' (x :: k)) eqn:E; [|reflexivity]. exfalso.
-      assert (Hn' : T (x :: k) <> None) by (apply pmem_none_iff; rewrite E; discriminate). apply Hn'. apply Hnone.
+    - intros k e' H Hx. destruct (pmem_some k e' H) as [e [ET [_ [Eb [_ [A B]]]]]].
+      assert (Hlen : (1 <= length k <= n)%nat) by (apply (i_len _ _ _ Inv k); rewrite ET; discriminate).
+      destruct (Nat.eq_dec (length k) n) as [Eln|Nln].
+      + split; [rewrite Eb; apply (Hlongest k e ET Eln)|].
+        intros x. destruct (T' (x :: k)) eqn:E; [|reflexivity]. exfalso.
+        assert (Hn' : T (x :: k) <> None) by (apply pmem_none_iff; rewrite E; discriminate).
+        pose proof (i_len _ _ _ Inv (x :: k) Hn') as Hl2. cbn [length] in Hl2. lia.
+      + rewrite (A ltac:(lia)) in Hx. destruct (i_ext _ _ _ Inv k e ET Hx) as [Z0 Hnone]. split; [rewrite Eb; exact Z0|].
+        intros x. destruct (T' (x :: k)) eqn:E; [|reflexivity]. exfalso.
+        assert (Hn' : T (x :: k) <> None) by (apply pmem_none_iff; rewrite E; discriminate). apply Hn'. apply Hnone.
     - intros w k Hk H. apply pmem_none_iff. apply pmem_none_iff in H. apply (i_ctx _ _ _ Inv w k Hk H).
     - intros k H. apply pmem_none_iff in H. apply (i_len _ _ _ Inv k H).
   Qed.
